@@ -19,6 +19,8 @@ func C10(c *core.Ctx) {
 	c.Rule("C10-R2", "Signature.UnmarshalJSON success implies a parsed JWS was stored", 1)
 	c.Rule("C10-R3", "signed flag derivation; stamps only when signed; code required when signed (sibling agreement)", 6)
 
+	c.Rule("C10-R4", "'the header still contains each signed header' compares every serialised header field (shared with C09-R3)", 7)
+	c09Contains(c, "C10-R4")
 	c10Sign(c)
 	c10Unmarshal(c)
 	c10SignedFlag(c)
